@@ -166,7 +166,7 @@ class PoolScenario(Scenario):
         return s.pick(specmod.POS_WEIGHTS)
 
     def has_quantity(self, specs, k):
-        return any(sp["p"] in specmod.HAS_Q for _, sp in specmod.walk(specs[k]))
+        return any(sp["p"] in specmod.HAS_Q and (sp.get("q") or {}).get("kind") != "unweighted" for _, sp in specmod.walk(specs[k]))
 
     def op_enabled(self, op, ab):
         n = len(ab.objs)
